@@ -134,6 +134,8 @@ inductive Op where
   | chainForceF (nodes S : List Nat) (del : Bool) (order failing : List Nat)
   /-- `has_data`, `data_path`, `run_info`, `log`, `tasks_df`, building a chain … -/
   | inspect (i : Nat)
+  /-- `task.reset_data()`: the object forgets the value it holds in memory — nothing else (the forced flag stays) -/
+  | reset (i : Nat)
 deriving Repr
 
 inductive Out (V : Type) where
@@ -162,6 +164,7 @@ def step (U : Universe) (f : Nat → List V → V) (fuel : Nat) (s : St V) : Op 
   | .inspect i =>
     let o := obj U i
     (s, .hasData (o.persist && (s.store o.loc).isSome))
+  | .reset i => ({ s with mem := upd s.mem i none }, .forced [])
 
 def runOps (U : Universe) (f : Nat → List V → V) (fuel : Nat) : St V → List Op → St V × List (Out V)
   | s, [] => (s, [])
